@@ -1,0 +1,13 @@
+//go:build verif
+
+package pow
+
+import "github.com/iotaledger/iota.go/consts"
+
+// VerifCheckStateTrits exposes checkStateTrits to the runtime monitors in /verif.
+func VerifCheckStateTrits(l, h *[consts.HashTrinarySize]uint, n uint) int {
+	return checkStateTrits(l, h, n)
+}
+
+// VerifTrailingZeros exposes trailingZeros to the runtime monitors in /verif.
+func VerifTrailingZeros(powDigest []byte, nonce uint64) int { return trailingZeros(powDigest, nonce) }
